@@ -294,3 +294,25 @@ def propagate_locals(fn):
             break
     ast.fix_missing_locations(fn)
     return fn
+
+
+def reachable_helpers(model, ref, depth=2):
+    """[fn] + the same-class / same-module functions it calls (transitively up to `depth`): the code a rule about `fn`
+    should look at when part of its body may have been moved into helpers"""
+    rel, qual = ref.split("::")
+    fn = model.func(ref)
+    cls = qual.split(".")[0] if "." in qual else None
+    table = _callee_table(model, rel, cls)
+    out, seen, frontier = [fn], {id(fn)}, [fn]
+    for _ in range(depth):
+        nxt = []
+        for f in frontier:
+            for n in ast.walk(f):
+                if isinstance(n, ast.Call):
+                    c = table.get(dotted(n.func) or "")
+                    if c is not None and id(c) not in seen:
+                        seen.add(id(c))
+                        out.append(c)
+                        nxt.append(c)
+        frontier = nxt
+    return out
